@@ -702,3 +702,175 @@ Proof.
     f_equal. rewrite predict_oos; [reflexivity|].
     intros x Hx. rewrite <- E in Hx. apply filter_In in Hx. lia.
 Qed.
+
+(* ---- polynomial trend: normal equations => least squares ---------------------------------------------- *)
+
+Open Scope Q_scope.
+
+Lemma sumf_cons {A} (f : A -> Q) x l : sumf f (x :: l) = f x + sumf f l.
+Proof. reflexivity. Qed.
+Lemma sumf_ext {A} (f g : A -> Q) l : (forall x, f x == g x) -> sumf f l == sumf g l.
+Proof.
+  intro H. induction l as [|x l IH]; [reflexivity|]. rewrite !sumf_cons, (H x), IH. reflexivity.
+Qed.
+Lemma sumf_plus {A} (f g : A -> Q) l : sumf (fun x => f x + g x) l == sumf f l + sumf g l.
+Proof. induction l as [|x l IH]; [reflexivity|]. rewrite !sumf_cons, IH. ring. Qed.
+Lemma sumf_scale {A} c (f : A -> Q) l : sumf (fun x => c * f x) l == c * sumf f l.
+Proof. induction l as [|x l IH]; [cbn; ring|]. rewrite !sumf_cons, IH. ring. Qed.
+Lemma sumf_zero {A} (l : list A) : sumf (fun _ => 0) l == 0.
+Proof. induction l as [|x l IH]; [reflexivity|]. rewrite sumf_cons, IH. ring. Qed.
+Lemma sumf_nonneg {A} (f : A -> Q) l : (forall x, 0 <= f x) -> 0 <= sumf f l.
+Proof.
+  intro H. induction l as [|x l IH]; [cbn; lra|]. rewrite sumf_cons. specialize (H x). lra.
+Qed.
+
+Lemma peval_cons c b t : peval (c :: b) t = c + t * peval b t.
+Proof. reflexivity. Qed.
+
+Lemma peval_sub : forall b' b t, length b' = length b ->
+  peval (map2 Qminus b' b) t == peval b' t - peval b t.
+Proof.
+  induction b' as [|c' b' IH]; intros b t Hlen; destruct b as [|c b]; try discriminate.
+  - cbn. ring.
+  - cbn [map2]. rewrite !peval_cons, IH by (cbn in Hlen; congruence). ring.
+Qed.
+
+Lemma map2_length : forall (f : Q -> Q -> Q) a b, length a = length b -> length (map2 f a b) = length b.
+Proof.
+  induction a as [|x a IH]; intros b H; destruct b as [|y b]; try discriminate; [reflexivity|].
+  cbn [map2 length]. f_equal. apply IH. cbn in H. congruence.
+Qed.
+
+(* if the residuals r are orthogonal to the features t^(k+j), j < len d, they are orthogonal to every
+   polynomial t^k * d(t) *)
+Lemma cross_zero (r : Q * Q -> Q) pts : forall d (k : nat),
+  (forall j, (j < length d)%nat -> sumf (fun p => qpw (fst p) (k + j) * r p) pts == 0) ->
+  sumf (fun p => qpw (fst p) k * peval d (fst p) * r p) pts == 0.
+Proof.
+  induction d as [|c d IH]; intros k H.
+  - rewrite (sumf_ext _ (fun _ => 0)); [apply sumf_zero|]. intro p. cbn [peval fold_right]. ring.
+  - rewrite (sumf_ext _ (fun p => c * (qpw (fst p) (k + 0) * r p)
+                                  + qpw (fst p) (S k) * peval d (fst p) * r p)).
+    2:{ intro p. rewrite peval_cons, Nat.add_0_r. cbn [qpw]. ring. }
+    rewrite sumf_plus, sumf_scale. rewrite (H 0%nat) by (cbn [length]; lia).
+    rewrite IH; [ring|]. intros j Hj.
+    replace (S k + j)%nat with (k + S j)%nat by lia. apply H. cbn [length]. lia.
+Qed.
+
+Lemma normal_ok_spec k0 b pts : normal_ok k0 b pts = true ->
+  forall j, (j < length b)%nat -> sumf (fun p => qpw (fst p) (k0 + j) * resid k0 b p) pts == 0.
+Proof.
+  unfold normal_ok. intros H j Hj. rewrite forallb_forall in H.
+  apply Qeq_bool_iff. apply H. apply in_seq. lia.
+Qed.
+
+(* the textbook characterisation: coefficients satisfying the normal equations minimise the sum
+   of squared residuals among all coefficient vectors of the same length *)
+Lemma normal_eq_minimises k0 b pts : normal_ok k0 b pts = true ->
+  forall b', length b' = length b -> sse k0 b pts <= sse k0 b' pts.
+Proof.
+  intros Hn b' Hlen. pose proof (normal_ok_spec k0 b pts Hn) as Horth.
+  set (d := map2 Qminus b' b).
+  assert (Hd : length d = length b) by (apply map2_length; exact Hlen).
+  set (e := fun p : Q * Q => qpw (fst p) k0 * peval d (fst p)).
+  assert (Hres : forall p, resid k0 b' p == resid k0 b p - e p).
+  { intro p. unfold resid, pval, e, d. rewrite peval_sub by exact Hlen. ring. }
+  assert (Hcross : sumf (fun p => e p * resid k0 b p) pts == 0).
+  { unfold e. apply cross_zero. intros j Hj. apply Horth. lia. }
+  unfold sse.
+  rewrite (sumf_ext (fun p => resid k0 b' p * resid k0 b' p)
+                    (fun p => resid k0 b p * resid k0 b p
+                              + ((-2 # 1) * (e p * resid k0 b p) + e p * e p))).
+  2:{ intro p. rewrite Hres. ring. }
+  rewrite sumf_plus, sumf_plus, sumf_scale, Hcross.
+  assert (H0 : 0 <= sumf (fun p => e p * e p) pts).
+  { apply sumf_nonneg. intro p. nra. }
+  lra.
+Qed.
+
+Lemma poly_is_lsq degree ic ys b : poly_fit degree ic ys = Ok b ->
+  exists v, all_some ys = Some v /\ length b = poly_m degree ic /\
+    forall b', length b' = length b ->
+      sse (poly_k0 ic) b (points v) <= sse (poly_k0 ic) b' (points v).
+Proof.
+  unfold poly_fit. intro H. destruct (all_some ys) as [v|]; [|discriminate].
+  exists v. split; [reflexivity|].
+  destruct (poly_m degree ic =? 0)%nat; [discriminate|].
+  destruct (elim (poly_m degree ic) (normal_rows (poly_k0 ic) (poly_m degree ic) (points v)))
+    as [b0|]; [|discriminate].
+  destruct (normal_ok (poly_k0 ic) b0 (points v) && (length b0 =? poly_m degree ic)%nat) eqn:E;
+    [|discriminate].
+  inversion H; subst b0. apply andb_true_iff in E. destruct E as [E1 E2].
+  apply Nat.eqb_eq in E2. split; [exact E2|]. apply normal_eq_minimises. exact E1.
+Qed.
+
+Lemma poly_predict_evaluates degree ic ys fh vals : poly_predict degree ic ys fh = Ok vals ->
+  exists b, poly_fit degree ic ys = Ok b /\
+    vals = map (fun r => Some (pval (poly_k0 ic) b (inject_Z (zlen ys - 1 + r)))) fh.
+Proof.
+  unfold poly_predict. destruct (poly_fit degree ic ys) as [b|]; [|discriminate].
+  intro H. inversion H. exists b. split; reflexivity.
+Qed.
+
+(* degree 1 with intercept: the normal equations are the two textbook equations of the OLS line *)
+Lemma line_normal_equations a s pts : normal_ok 0 [a; s] pts = true ->
+  let N := sumf (fun _ => 1) pts in
+  let St := sumf (fun p => fst p) pts in let Sy := sumf (fun p => snd p) pts in
+  let Stt := sumf (fun p => fst p * fst p) pts in let Sty := sumf (fun p => fst p * snd p) pts in
+  s * (N * Stt - St * St) == N * Sty - St * Sy /\ a * N == Sy - s * St.
+Proof.
+  intros Hn N St Sy Stt Sty. pose proof (normal_ok_spec 0 [a; s] pts Hn) as H.
+  pose proof (H 0%nat ltac:(cbn; lia)) as H0. pose proof (H 1%nat ltac:(cbn; lia)) as H1.
+  clear H Hn.
+  rewrite (sumf_ext _ (fun p => snd p + ((- a) * 1 + (- s) * fst p))) in H0.
+  2:{ intro p. unfold resid, pval. cbn [qpw peval fold_right Nat.add]. ring. }
+  rewrite (sumf_ext _ (fun p => fst p * snd p + ((- a) * fst p + (- s) * (fst p * fst p)))) in H1.
+  2:{ intro p. unfold resid, pval. cbn [qpw peval fold_right Nat.add]. ring. }
+  rewrite !sumf_plus, !sumf_scale in H0, H1.
+  fold N St Sy in H0. fold St Sty Stt in H1.
+  change (sumf snd pts) with Sy in H0. change (sumf fst pts) with St in H0, H1.
+  assert (E0 : Sy == a * N + s * St) by lra.
+  assert (E1 : Sty == a * St + s * Stt) by lra.
+  split; rewrite ?E0, ?E1; ring.
+Qed.
+
+(* degree 1 through the origin (with_intercept=False) *)
+Lemma origin_normal_equation s pts : normal_ok 1 [s] pts = true ->
+  s * sumf (fun p => fst p * fst p) pts == sumf (fun p => fst p * snd p) pts.
+Proof.
+  intro Hn. pose proof (normal_ok_spec 1 [s] pts Hn 0%nat ltac:(cbn; lia)) as H0.
+  rewrite (sumf_ext _ (fun p => fst p * snd p + (- s) * (fst p * fst p))) in H0.
+  2:{ intro p. unfold resid, pval. cbn [qpw peval fold_right Nat.add]. ring. }
+  rewrite sumf_plus, sumf_scale in H0. lra.
+Qed.
+
+(* degree 0: the mean *)
+Lemma mean_normal_equation a pts : normal_ok 0 [a] pts = true ->
+  a * sumf (fun _ => 1) pts == sumf (fun p => snd p) pts.
+Proof.
+  intro Hn. pose proof (normal_ok_spec 0 [a] pts Hn 0%nat ltac:(cbn; lia)) as H0.
+  rewrite (sumf_ext _ (fun p => snd p + (- a) * 1)) in H0.
+  2:{ intro p. unfold resid, pval. cbn [qpw peval fold_right Nat.add]. ring. }
+  rewrite sumf_plus, sumf_scale in H0.
+  change (sumf (fun p : Q * Q => snd p) pts) with (sumf (@snd Q Q) pts). lra.
+Qed.
+
+Close Scope Q_scope.
+
+(* ---- statsmodels adapter: selection of the requested steps ------------------------------------------- *)
+
+Lemma adapter_selects n (g : Z -> oq) fh : sorted_lt fh -> fh <> [] ->
+  adapter_predict n (map g (zrange (n - 1 + zfirst fh) (n - 1 + zlast fh + 1) 1)) fh
+  = Ok (map (fun r => g (n - 1 + r)) fh).
+Proof.
+  intros Hs Hne. unfold adapter_predict. apply index_all_map. intros r Hin.
+  pose proof (sorted_lt_first_min fh r Hs Hin) as Hlo.
+  pose proof (sorted_lt_last_max fh r Hs Hin) as Hhi.
+  unfold zget. destruct (n - 1 + r - (n - 1 + zfirst fh) <? 0) eqn:E; [lia|].
+  set (k := Z.to_nat (n - 1 + r - (n - 1 + zfirst fh))).
+  set (rng := zrange (n - 1 + zfirst fh) (n - 1 + zlast fh + 1) 1).
+  assert (Hk : (k < length rng)%nat).
+  { subst k rng. pose proof (zrange_length1 (n - 1 + zfirst fh) (n - 1 + zlast fh + 1)). lia. }
+  rewrite (map_nth_error g k rng (d := n - 1 + r)); [reflexivity|].
+  rewrite (nth_error_nth' _ 0 Hk). f_equal. subst k rng. rewrite zrange_nth1 by lia. lia.
+Qed.
